@@ -11,7 +11,9 @@
 //              context of thread arg (its handler, if inside, stays inside); obj maxconns with
 //              n <= 0 is the documented "no limit" configuration
 // tr opcodes:  0 Schedule(arg=1: task panics), 1 ScheduleImmediately, 2 Wait
-// pl opcodes:  0 Get, 1 Put (most recently obtained resource), 2 advance clock by arg ns, 3 Put(nil)
+// pl opcodes:  0 Get, 1 Put (most recently obtained resource), 2 advance clock by arg ns, 3 Put(nil),
+//              4 Get whose create(), if it is called, panics (result -2)
+// probe:       obj pool: Pool(1), the first create() panics; R = 1 if the next Get succeeds, 0 if it blocks
 // wp objs:     mr (ForEach) mrdef (ForEach, default workers) mrmr (MapReduce) mrvoid (MapReduceVoid)
 //              mrchan (MapReduceChan) finish (Finish) finishvoid (FinishVoid)
 //              fx (Walk) fxp (Parallel) fxmap (Map) fxfilter (Filter) fxu (Walk, UnlimitedWorkers)
@@ -392,6 +394,7 @@ func runPL(c Case, ctl *sched.Ctl, mon *monitor, wg *sync.WaitGroup) {
 	timex.SetFakeNow(1000000)
 	caps := c.caps()
 	pools := make([]*syncx.Pool, len(caps))
+	panicCreate := make([]int32, len(c.Scripts)) // per thread: the create() called for its current Get panics
 	for k := range caps {
 		k := k
 		var next int64
@@ -409,6 +412,9 @@ func runPL(c Case, ctl *sched.Ctl, mon *monitor, wg *sync.WaitGroup) {
 			return p
 		}
 		create := func() any {
+			if a := ctl.Actor(); a >= 0 && a < len(panicCreate) && atomic.LoadInt32(&panicCreate[a]) != 0 {
+				panic("create failed") // opcode 4: nothing is created (and nobody overlaps: no gate)
+			}
 			id := next
 			next++
 			if v := atomic.AddInt32(&live, 1); int(v) > caps[k] {
@@ -484,6 +490,25 @@ func runPL(c Case, ctl *sched.Ctl, mon *monitor, wg *sync.WaitGroup) {
 						}
 					case 3:
 						pool.Put(nil)
+					case 4:
+						if c.Free && len(held) > 0 {
+							break
+						}
+						atomic.StoreInt32(&panicCreate[tid], 1)
+						func() {
+							defer func() {
+								if p := recover(); p != nil {
+									r = -2
+								}
+							}()
+							x := pool.Get().(int64)
+							if !atomic.CompareAndSwapInt32(flag(x), 0, 1) {
+								mon.report("pool: resource %d handed to two users", x)
+							}
+							held = append([]int64{x}, held...)
+							r = x
+						}()
+						atomic.StoreInt32(&panicCreate[tid], 0)
 					}
 					ctl.Log(tid, "ret", i, r)
 				}
@@ -799,6 +824,33 @@ func runWG(c Case, ctl *sched.Ctl, mon *monitor, wg *sync.WaitGroup) {
 	})
 }
 
+// behavioural probe used by the regeneration step (coq/gen/C05Consts.v)
+func runProbe(c Case) int64 {
+	calls := 0
+	p := syncx.NewPool(1, func() any {
+		calls++
+		if calls == 1 {
+			panic("create failed")
+		}
+		return calls
+	}, func(any) {})
+	func() {
+		defer func() { recover() }()
+		p.Get()
+	}()
+	done := make(chan struct{})
+	go func() {
+		p.Get()
+		close(done)
+	}()
+	select {
+	case <-done:
+		return 1
+	case <-time.After(3 * time.Second):
+		return 0
+	}
+}
+
 // constructors with n <= 0
 func runCtor(c Case) int64 {
 	r := int64(1)
@@ -943,6 +995,10 @@ func runCase(c Case) (out Out) {
 	}
 	if c.Kind == "ctor" {
 		out.R = runCtor(c)
+		return out
+	}
+	if c.Kind == "probe" {
+		out.R = 10 + runProbe(c)
 		return out
 	}
 	ctl := sched.New(c.Free)
